@@ -563,7 +563,7 @@ _COMPOUND_EXTRA = {
 
 
 MATCHED_CHECKS = (110, 114, 136, 171, 149)          # translated together (GenMatch.v), statements in C01Match.v
-LIBRARY_CHECKS = (104, 141, 144, 146, 155, 163)      # translated one file each (GenLib<code>.v), statements in C01Lib<code>.v
+LIBRARY_CHECKS = (104, 141, 144, 146, 155, 163, 181)      # translated one file each (GenLib<code>.v), statements in C01Lib<code>.v
 COMPOUND_INFO: dict[int, tuple] = {}
 
 
@@ -932,11 +932,14 @@ def matcher_tie(ctx: Ctx, matched: dict, all_rules: list, built: bool) -> None:
         for base_ in ("2", "10", "2.0", "10.0", "2.5", "10.5", "3", "0b10", "0xA", "1e1", "2e0", "2.00", "20", "-2", "True", "math.e", "me_", "m2.e", "math.pi", "n", "a", "2j", "'2'"):
             lib.append(f"{lg}(a, {base_})")
         lib += [f"{lg}(a)", f"{lg}(a, 2, 3)", f"{lg}(2, a)"]
+    for hv in ("hashlib.sha256(bs_)", "hashlib.md5()", "h256_", "hshake_", "hashlib.shake_128(bs_)", "hashlib.blake2b()", "hnew_", "obj", "s", "bs_"):
+        lib += [f"{hv}.digest().hex()", f"{hv}.digest(8).hex()", f"{hv}.digest(n).hex()", f"{hv}.digest().upper()", f"{hv}.hexdigest().hex()", f"{hv}.digest(1, 2).hex()",
+                f"{hv}.digest().hex(':')", f"{hv}.digest(length=8).hex()", f"{hv}.copy().digest().hex()"]
     srcs += [x for x in lib if x not in seen]
     files, per = {}, 400
     for fi in range(0, len(srcs), per):
         lines = [G.PRELUDE, "import math\nimport math as m2\nfrom math import log as mlog_, e as me_\nfrom pathlib import Path\nfrom os.path import isfile as isfile_, getsize as getsize_, exists as exists_\n"
-                 "from os import unlink as unlink_, getcwd as getcwd_, stat as stat_\np_: Path = Path()\nbs_: bytes = b''",
+                 "from os import unlink as unlink_, getcwd as getcwd_, stat as stat_\np_: Path = Path()\nbs_: bytes = b''\nimport hashlib\nh256_ = hashlib.sha256()\nhshake_ = hashlib.shake_128()\nhnew_ = hashlib.new('md5')",
                  "w = 0", "flag: bool = True", "async def _w() -> None:"]
         for j, s0 in enumerate(srcs[fi:fi + per]):
             lines.append(f"    P_{fi + j} = {s0}")
@@ -945,7 +948,7 @@ def matcher_tie(ctx: Ctx, matched: dict, all_rules: list, built: bool) -> None:
     try:
         loose = (N.ConditionalExpr, N.LambdaExpr, N.AwaitExpr, N.AssignmentExpr)
         kinds = {110: N.ConditionalExpr, 136: N.ConditionalExpr, 114: N.UnaryExpr, 171: N.ComparisonExpr, 149: N.ComparisonExpr,
-                 104: N.CallExpr, 141: N.CallExpr, 144: N.CallExpr, 146: N.CallExpr, 155: N.CallExpr, 163: N.CallExpr}
+                 104: N.CallExpr, 141: N.CallExpr, 144: N.CallExpr, 146: N.CallExpr, 155: N.CallExpr, 163: N.CallExpr, 181: N.CallExpr}
         pytypes = {"bool": bool, "str": str, "bytes": bytes, "pathlib.Path": "pathlib.Path"}
         from refurb.checks.common import get_mypy_type, is_same_type, stringify
         mods = {code: importlib.import_module(info["module"]) for code, info in matched.items()}
@@ -974,10 +977,12 @@ def matcher_tie(ctx: Ctx, matched: dict, all_rules: list, built: bool) -> None:
                         real = [f"<{type(ex).__name__}>"]
                     oracle = []
                     if matched[code].get("typed"):          # what the type guard answers for the operands / arguments, keyed by their text
-                        for op_ in list(getattr(node, "operands", [])) + list(getattr(node, "args", [])):
+                        receivers = [node.callee.expr.callee.expr] if isinstance(node, N.CallExpr) and isinstance(node.callee, N.MemberExpr) and isinstance(node.callee.expr, N.CallExpr) \
+                            and isinstance(node.callee.expr.callee, N.MemberExpr) else []
+                        for op_ in list(getattr(node, "operands", [])) + list(getattr(node, "args", [])) + receivers:
                             for tn in matched[code].get("type_names", []):
                                 try:
-                                    if is_same_type(get_mypy_type(op_), pytypes[tn]):
+                                    if is_same_type(get_mypy_type(op_), pytypes.get(tn, tn)):
                                         oracle.append((stringify(op_), tn))
                                 except Exception:  # noqa: BLE001
                                     pass
@@ -1386,4 +1391,5 @@ def run(ctx: Ctx) -> None:
             explained[o["name"]] = (f"semantics:FURB{c_}:", f"invalid-python:FURB{c_}")
     explained["log_advice_only_for_its_own_base"] = ("semantics:FURB163:", "invalid-python:FURB163")
     explained["stat_advice_names_the_matching_field"] = ("semantics:FURB155:", "invalid-python:FURB155")
+    explained["hexdigest_advice_keeps_root_and_length"] = ("semantics:FURB181:", "invalid-python:FURB181")
     ctx.resolve_broken(explained, b.first_error)
